@@ -83,5 +83,12 @@ def early_return_in_with(x: fp.Real):
     z = y * 1.1
     return z
 
-ALL = [dyn_ctx_positional, dyn_ctx_keyword, dyn_ctx_ieee, dyn_ctx_fixed, inplace_scan_enumerate, inplace_scan_zip,
+@fp.fpy
+def tuple_subscript(x: fp.Real, y: fp.Real):
+    with fp.MPFloatContext(4, fp.RM.RTZ):
+        t = (x + y, x * y)
+        u = (t, x)
+    return (t[0], t[1], u[0][1], u[1])
+
+ALL = [tuple_subscript, dyn_ctx_positional, dyn_ctx_keyword, dyn_ctx_ieee, dyn_ctx_fixed, inplace_scan_enumerate, inplace_scan_zip,
        zip_mutating_callee, neg_abs_narrow_range, sum_unrounded_first, early_return_in_with]
